@@ -30,3 +30,22 @@ Record entry := {
   e_meth : option sig;          (* signature of klass.<name> without self; None: no such method *)
   e_registered : bool           (* the method is decorated with _Algorithm._register *)
 }.
+
+(* ---- per-point arguments: how each _setup_* function validates and flattens `weights`
+   (weight_array = _check_optional_array(<size>, weights, dtype=, order=, ensure_1d=, axis=) and the
+   later assignments to weight_array), as translated from the source ---- *)
+Inductive wdtype := WFloat | WBool | WNone | WOtherDt.
+Inductive worder := ONone | OC | OOther.
+Inductive waxis := AxLast | AxAll | AxOther.          (* axis omitted (= -1)  |  axis=slice(None) *)
+Inductive wflat := FlNone | FlRavelC | FlRavelCUnlessSvd | FlOther.
+Record setup_entry := {
+  su_two_d : bool; su_name : string;
+  su_size_is_shape : bool;       (* first argument is self._shape (else self._size) *)
+  su_dtype : wdtype; su_order : worder; su_ensure_1d : bool; su_axis : waxis;
+  su_sort : bool;                (* followed by: if self._sort_order is not None and weights is not None: w = w[self._sort_order] *)
+  su_flat : wflat                (* weight_array.ravel() [order C]: always / only when not whittaker_system._using_svd / never *)
+}.
+
+(* recognised shape of _register.inner: inner(self, data=None, *args, **kwargs) whose only call of the
+   wrapped function is func(self, y, *args, **kwargs) *)
+Inductive in_shape := InDataArgsKwargs | InUnknown.
